@@ -53,60 +53,61 @@ def optArr {α} (f : α → Json) : Option (List α) → Json
   | none => .null
   | some xs => .arr (xs.map f)
 
-/-- The introspection resolvers. Unknown (node, field) combinations answer `null` (such a query
-    does not validate; the tie only uses valid probes). -/
+/-- One introspection resolver call: field `tag` (argument `arg`) on the object `n`; `k` evaluates
+    the sub-selection on a child object. Unknown (node, field) combinations answer `null` (such a
+    query does not validate; the tie only uses valid probes). -/
+def evalHead (v : View) (tag arg : String) (k : Node → List (String × Json)) : Node → Json
+  | .root =>
+    if tag == "__type" then
+      (match v.typeByName arg with
+       | some p => .obj (k (.ty (.named p)))
+       | none => .null)
+    else if tag == "__schema" then .obj (k .schema)
+    else .null
+  | .schema =>
+    if tag == "types" then .arr (v.typesListing.map fun p => .obj (k (.ty (.named p))))
+    else if tag == "queryType" then .obj (k (.ty (.named v.queryType)))
+    else if tag == "mutationType" then
+      (match v.mutationType with
+       | some m => .obj (k (.ty (.named m)))
+       | none => .null)
+    else .null
+  | .ty (.named p) =>
+    if tag == "name" then .str p
+    else if tag == "kind" then
+      (match v.kindOf p with
+       | some kd => .str (kindName kd)
+       | none => .null)
+    else if tag == "fields" then optArr (fun s => .obj (k (.field s))) (v.fieldsListing p)
+    else if tag == "interfaces" then optArr (fun i => .obj (k (.ty (.named i)))) (v.interfacesOf p)
+    else if tag == "possibleTypes" then optArr (fun i => .obj (k (.ty (.named i)))) (v.possibleTypes p)
+    else if tag == "inputFields" then optArr (fun a => .obj (k (.input a))) (v.inputFields p)
+    else if tag == "enumValues" then optArr (fun e => .obj (k (.enumv e))) (v.enumValues p)
+    else .null
+  | .ty (.list t) =>
+    if tag == "kind" then .str "LIST"
+    else if tag == "ofType" then .obj (k (.ty t))
+    else .null
+  | .ty (.nonNull t) =>
+    if tag == "kind" then .str "NON_NULL"
+    else if tag == "ofType" then .obj (k (.ty t))
+    else .null
+  | .field s =>
+    if tag == "name" then .str s.name
+    else if tag == "type" then .obj (k (.ty s.ty))
+    else if tag == "args" then .arr (s.args.map fun a => .obj (k (.input a)))
+    else .null
+  | .input a =>
+    if tag == "name" then .str a.name
+    else if tag == "type" then .obj (k (.ty a.ty))
+    else .null
+  | .enumv e =>
+    if tag == "name" then .str e else .null
+
+/-- The introspection resolvers applied to a selection tree on the object `n`. -/
 def evalSels (v : View) : Sels → Node → List (String × Json)
   | .nil, _ => []
-  | .cons tag arg sub rest, n =>
-    (tag,
-      match n with
-      | .root =>
-        if tag == "__type" then
-          (match v.typeByName arg with
-           | some p => .obj (evalSels v sub (.ty (.named p)))
-           | none => .null)
-        else if tag == "__schema" then .obj (evalSels v sub .schema)
-        else .null
-      | .schema =>
-        if tag == "types" then .arr (v.typesListing.map fun p => .obj (evalSels v sub (.ty (.named p))))
-        else if tag == "queryType" then .obj (evalSels v sub (.ty (.named v.queryType)))
-        else if tag == "mutationType" then
-          (match v.mutationType with
-           | some m => .obj (evalSels v sub (.ty (.named m)))
-           | none => .null)
-        else .null
-      | .ty (.named p) =>
-        if tag == "name" then .str p
-        else if tag == "kind" then
-          (match v.kindOf p with
-           | some k => .str (kindName k)
-           | none => .null)
-        else if tag == "fields" then optArr (fun s => .obj (evalSels v sub (.field s))) (v.fieldsListing p)
-        else if tag == "interfaces" then optArr (fun i => .obj (evalSels v sub (.ty (.named i)))) (v.interfacesOf p)
-        else if tag == "possibleTypes" then optArr (fun i => .obj (evalSels v sub (.ty (.named i)))) (v.possibleTypes p)
-        else if tag == "inputFields" then optArr (fun a => .obj (evalSels v sub (.input a))) (v.inputFields p)
-        else if tag == "enumValues" then optArr (fun e => .obj (evalSels v sub (.enumv e))) (v.enumValues p)
-        else .null
-      | .ty (.list t) =>
-        if tag == "kind" then .str "LIST"
-        else if tag == "ofType" then .obj (evalSels v sub (.ty t))
-        else .null
-      | .ty (.nonNull t) =>
-        if tag == "kind" then .str "NON_NULL"
-        else if tag == "ofType" then .obj (evalSels v sub (.ty t))
-        else .null
-      | .field s =>
-        if tag == "name" then .str s.name
-        else if tag == "type" then .obj (evalSels v sub (.ty s.ty))
-        else if tag == "args" then .arr (s.args.map fun a => .obj (evalSels v sub (.input a)))
-        else .null
-      | .input a =>
-        if tag == "name" then .str a.name
-        else if tag == "type" then .obj (evalSels v sub (.ty a.ty))
-        else .null
-      | .enumv e =>
-        if tag == "name" then .str e else .null)
-    :: evalSels v rest n
+  | .cons tag arg sub rest, n => (tag, evalHead v tag arg (evalSels v sub) n) :: evalSels v rest n
 
 /-- The `data` of an introspection request. -/
 def introspect (v : View) (q : Sels) : Json := .obj (evalSels v q .root)
